@@ -613,6 +613,11 @@ def inline_temporaries(f, r):
             keep_def = True
         if not _pure(value):
             return None
+        # a temporary that holds a freshly built object and is then modified in place (v.remove(x), v[i] = ..., v += ...) is a variable with state,
+        # not a name for a value: re-evaluating its defining expression at each use would build a new object each time
+        if not isinstance(value, (ast.Name, ast.Attribute, ast.Constant)) and any(
+                v in _mutations(s_) for s_ in ast.walk(f) if isinstance(s_, ast.stmt) and s_ is not d and not isinstance(s_, (ast.FunctionDef, ast.ClassDef, ast.For, ast.While, ast.If, ast.With, ast.Try))):
+            return None
         uses = [n for n in own_nodes(f) if isinstance(n, ast.Name) and n.id == v and isinstance(n.ctx, ast.Load)]
         if any((u.lineno, u.col_offset) < (d.lineno, d.col_offset) for u in uses):
             return None
